@@ -272,7 +272,7 @@ def true_extent(d):
 
 class Check(PropertyCheck):
     id = 'C03'
-    lean_targets = ['RegionsVerif.Props.C03', 'RegionsVerif.Props.C03Area', 'RegionsVerif.Props.C03Ellipse']
+    lean_targets = ['RegionsVerif.Props.C03', 'RegionsVerif.Props.C03Area', 'RegionsVerif.Props.C03Ellipse', 'RegionsVerif.Props.C03Converge']
     namespaces = ['RegionsVerif.Props.C03', 'RegionsVerif.Props.C03E']
     rule = ('circles and ellipses with radii / semi-axes 1e-3..1e3 pixels, axis ratios to 1:100, all angles, generic and half-integer '
             'centres; whole to_mask(exact) grids with up to ~56 sampled pixels each (boundary, interior, exterior) and single pixels; '
@@ -321,7 +321,14 @@ class Check(PropertyCheck):
                 ratio = rng.choice([1.0, 1.0 + 3e-6, 1.0 - 2e-6, 1.3, 3.0, 10.0, 100.0])
                 w = 2 * scale * rng.uniform(0.7, 1.4)
                 d = {'kind': 'ellipse', 'c': c, 'w': w, 'h': max(w / ratio, 2e-3), 'angle': G.rangle(rng), 'include': 'absent'}
-            cases.append(G.add_history(rng, {'kind': 'exact/' + kind, 'region': d, 'pick': rng.randrange(1 << 30)}, prob=0.3))
+            if rng.random() < 0.2:
+                # the centre comes as numpy float32 scalars (float32-exact values, so every oracle sees the same centre)
+                d['c'] = [float(np.float32(d['c'][0])), float(np.float32(d['c'][1]))]
+                d['c_f32'] = True
+            # `subpixels` is documented to be ignored in 'exact' mode: pass it anyway, like generic code calling
+            # to_mask(mode=mode, subpixels=n) does
+            cases.append(G.add_history(rng, {'kind': 'exact/' + kind, 'region': d, 'pick': rng.randrange(1 << 30),
+                                             'sub': rng.choice([None, None, 1, 1, 2, 5, 10])}, prob=0.3))
         # a pixel corner EXACTLY on the ellipse (the kernel has separate `on` branches, tolerance 1e-10 in the
         # normalised squared radius): rational points of the unit circle, pixel corners at half-integers
         cases.append({'kind': 'exact/ellipse', 'pick': 1, 'on_corner': True,
@@ -397,7 +404,7 @@ class Check(PropertyCheck):
             reg.to_mask(mode='subpixels', subpixels=max(1, case['n'] // 2))
             m = reg.to_mask(mode='subpixels', subpixels=case['n'])
         else:
-            m = reg.to_mask(mode='exact')
+            m = reg.to_mask(mode='exact') if case.get('sub') is None else reg.to_mask(mode='exact', subpixels=case['sub'])
         data = np.asarray(m.data, dtype=float)
         b = m.bbox
         box = [int(b.ixmin), int(b.ixmax), int(b.iymin), int(b.iymax)]
